@@ -170,7 +170,8 @@ def run_direct(case):
 # ---------------------------------------------------------------------------
 # generator
 
-INT_RECS = ['P1', 'P1', 'P2', 'P3', 'P4', 'P5', '+P1/P2', '+P2/P3', 'R1', 'R1/+P3', '+P3/P6', 'R1/+P5']
+INT_RECS = ['P1', 'P1', 'P2', 'P3', 'P4', 'P5', '+P1/P2', '+P2/P3', 'R1', 'R1/+P3', '+P3/P6', 'R1/+P5',
+            'P1!3', 'P1!(2,5)', 'P2!7', 'P1!P3']
 DT_RECS = ['PT6H', 'PT6H', 'PT12H', 'P1D', 'PT3H', 'P2D', 'T00', 'T06', '+PT6H/P1D', 'R1', 'R1/+P1D', 'PT8H']
 DT_LIMITS = ['P0', 'P1', 'P2', 'P3', 'PT0H', 'PT3H', 'PT6H', 'PT12H', 'PT18H', 'P1D', 'P2D', 'PT5H', 'PT30H']
 DT_OFFS = ['PT3H', 'PT6H', 'PT12H', 'P1D']
